@@ -289,6 +289,7 @@ def _find_domain_astype(op, domain):
 
 @find_domain.register(ops.LogOp)
 @find_domain.register(ops.ExpOp)
+@find_domain.register(ops.ReciprocalOp)
 def _find_domain_log_exp(op, domain):
     return Array["real", domain.shape]
 
